@@ -8,6 +8,7 @@ import (
 	"github.com/antonmedv/expr"
 	"github.com/antonmedv/expr/ast"
 	"github.com/antonmedv/expr/parser"
+	"github.com/antonmedv/expr/vm"
 
 	"verif/mc/gen"
 	"verif/mc/henv"
@@ -575,6 +576,30 @@ func (v *c10Kth) Exit(n *ast.Node) {
 func c10EndToEnd(r *report.Run) (contexts, runs int64) {
 	sl := sliceHoles()
 	base := int64(1) << 40
+	// a ConstExpr call with constant arguments is evaluated at compile time wherever it occurs: the compiled program
+	// calls nothing
+	for i, ctx := range []string{"%s", "[%s, I]", "B ? %s : 0", "B ? 0 : %s", "(%s > 0) ? 1 : 2", "all(A, {%s > #})", "Id(%s) + I", "{a: %s}", "O.Plus(%s)", "A[%s:]", "not (%s > 1)", "A[%s]", "%s in A",
+		"(B ? %s : 1) + 1", "map(A, {B ? %s : #})", "[B ? [%s] : []]", "I > 0 and %s > 0", "-%s", "%s + Add(2, 3)"} {
+		src := fmt.Sprintf(ctx, "Add(1, 2)")
+		ref3 := fmt.Sprintf(ctx, "3")
+		for _, opt := range []bool{true} {
+			p, err := expr.Compile(src, expr.Env(henv.Env{}), expr.ConstExpr("Add"), expr.Optimize(opt))
+			q, err2 := expr.Compile(ref3, expr.Env(henv.Env{}), expr.Optimize(opt))
+			if err != nil || err2 != nil {
+				continue
+			}
+			calls := 0
+			for _, c := range p.Constants {
+				if cl, ok := c.(vm.Call); ok && cl.Name == "Add" {
+					calls++
+				}
+			}
+			_ = q
+			if calls > 0 {
+				r.Report(report.Violation{Sub: "const-expr", Kind: "call-not-folded", Witness: ctx, Order: base - 200 + int64(i), Detail: map[string]interface{}{"source": src, "disassembly": trunc(p.Disassemble())}})
+			}
+		}
+	}
 	// the short conditional: each of its three slots takes a replacement of its own
 	for i, c := range []struct {
 		src    string
